@@ -27,6 +27,8 @@ type Rig struct {
 	srv  *server.OvsdbServer
 	dir  string
 	sock string
+	// client indexes of the clients built by newClient (none unless set)
+	clientIdx map[string][]model.ClientIndex
 }
 
 func newRig(ts TxnSchema) (*Rig, error) {
@@ -62,7 +64,7 @@ func (g *Rig) endpoint() string { return "unix:" + g.sock }
 
 // newClient builds a client with its own copy of the run-time model types
 func (g *Rig) newClient(endpoint string, opts ...client.Option) (client.Client, *DB, error) {
-	cdb, err := BuildDB(g.ts.Spec, nil)
+	cdb, err := BuildDB(g.ts.Spec, g.clientIdx)
 	if err != nil {
 		return nil, nil, err
 	}
